@@ -19,7 +19,7 @@ Section C01.
   Context (H : list (N * N * bool)).
   Context (Hvalid : forall k t d, (k, t, d) ∈ H -> valid_ts t = true /\ 1 <= ts_tick t).
   Context (Hwithin : forall k t d k' t' d', (k, t, d) ∈ H -> (k', t', d') ∈ H -> ts_tick t' < ts_tick t + W).
-  Context (Hdistinct : forall k t d k' d', (k, t, d) ∈ H -> (k', t, d') ∈ H -> k = k' /\ d = d').
+  Context (Hdistinct : forall k t d d', (k, t, d) ∈ H -> (k, t, d') ∈ H -> d = d').
 
   (** Every event keeps every node consistent (set invariant, set = store, everything a node
       holds is an operation of the history) and no node's view of any key ever goes back. *)
@@ -219,3 +219,32 @@ Theorem C01_swapped_getstate_reads_refuted :
   Tracker.wf 0%nat es /\ ~ Forall stamp_first es /\
   fst (Tracker.run es) = 2%nat /\ pulled (snd (Tracker.run es)) = 1%nat /\ recorded (snd (Tracker.run es)) = Some 2%nat.
 Proof. exact swapped_reads_refuted. Qed.
+
+(** Non-vacuity of the PREMISES, with bulk operations: a put_many stamps all its ids alike
+    (ids 1 and 2 share [t1]), a del_many likewise; the history satisfies the three premises of
+    Section C01 (decided by [cluster_hist_ok]), the trace is well-formed, and every node ends
+    serving exactly id 2. *)
+Example C01_nonvacuous_bulk :
+  let t1 := mk_ts 90000010 0 0 in
+  let t2 := mk_ts 90000020 0 1 in
+  let H := [(1, t1, false); (2, t1, false); (1, t2, true); (3, t2, true)] in
+  let es1 := [CIssue 0%nat (MPutMany [mkDoc 1 t1 7; mkDoc 2 t1 8]) [1%nat];
+              CIssue 1%nat (MDelMany [mkMeta 1 t2; mkMeta 3 t2]) []] in
+  let es2 := [CRepair 0%nat 1%nat; CRepair 0%nat 2%nat; CRepair 1%nat 0%nat; CRepair 1%nat 2%nat;
+              CRepair 2%nat 0%nat; CRepair 2%nat 1%nat] in
+  ((forall k t d, (k, t, d) ∈ H -> valid_ts t = true /\ 1 <= ts_tick t) /\
+   (forall k t d k' t' d', (k, t, d) ∈ H -> (k', t', d') ∈ H -> ts_tick t' < ts_tick t + W) /\
+   (forall k t d d', (k, t, d) ∈ H -> (k, t, d') ∈ H -> d = d')) /\
+  Forall (wf_event H 3%nat) (es1 ++ es2) /\
+  map live_docs (crun (cinit 3%nat) (es1 ++ es2)) = [[(2, (t1, 8))]; [(2, (t1, 8))]; [(2, (t1, 8))]].
+Proof.
+  cbv zeta. split; [apply cluster_hist_ok_spec; vm_compute; reflexivity|]. split.
+  - repeat (apply Forall_cons_2; [cbn [wf_event];
+      first [ split; lia
+            | split; [lia|]; split; [|repeat constructor; lia];
+              intros k' t' d' Hx; cbn in Hx;
+              repeat (apply elem_of_cons in Hx as [Hx|Hx]; [injection Hx as -> -> ->; set_solver|]);
+              inversion Hx ]|]).
+    apply Forall_nil_2.
+  - vm_compute. reflexivity.
+Qed.
